@@ -206,7 +206,10 @@ func runPluginSigner() int {
 			obs.Returned = sig != nil
 			obs.Err = serr != nil
 			if serr != nil {
-				obs.Note = serr.Error()
+				var ep bool
+				if obs.Note, ep = errText(serr); ep {
+					obs.Panic = true
+				}
 			}
 			if obs.Returned {
 				obs.Sound = soundEnvelope(in.Format, sig, want, chain)
